@@ -68,7 +68,9 @@ def run(ctx):
     pr = Prober(rnd)
     names = sorted(n for n, a in AUDIT.items() if n.startswith('BSC_') and a.get('cls'))
     errs = [0] + list(range(1, 107)) + [107, 127, 128, 255, 256, 9999, 65535, 65536, 1 << 31, (1 << 32) - 1, 1 << 32,
-                                        (1 << 32) + 2, 1 << 63, (1 << 64) - 1] + [rnd.getrandbits(64) for _ in range(3)]
+                                        (1 << 32) + 2, 1 << 63, (1 << 64) - 1, (1 << 31) - 1, (1 << 63) - 1]
+    errs += [(1 << 32) - k for k in range(2, 9)] + [(1 << 64) - k for k in range(2, 9)]      # -2 .. -8 as 32 / 64 bit (kernel pseudo errors)
+    errs += [rnd.getrandbits(64) for _ in range(3)]
     deep = [0, 2, 35, 107, 1 << 63] if ctx.quick else [0, 1, 2, 11, 35, 45, 106, 107, 9999, 1 << 31, 1 << 63, (1 << 64) - 1]
     obs, info = [], {}
     for name in names:
